@@ -89,6 +89,11 @@ def carrier(vals, how):
         return alpha.pylist(vals)
     if how == "tuple":
         return tuple(alpha.pylist(vals))
+    if how == "ma2":  # masked array with an explicit all-False mask and un-masked NaNs
+        return np.ma.MaskedArray(alpha.nd(vals), mask=np.zeros(len(vals), dtype=bool))
+    if how == "ma":  # masked array with adversarial data under the mask
+        miss = [v in (NAN, None) for v in vals]
+        return np.ma.MaskedArray(np.array([999.0 if m else float(v) for v, m in zip(vals, miss)], dtype="float64"), mask=miss)
     raise KeyError(how)
 
 
